@@ -107,24 +107,27 @@ pub fn tokenize_spans(text: &str) -> (Vec<Seen>, Vec<(usize, usize)>) {
 }
 
 /// The one thing about layout C18 does promise implicitly: a matrix part is shown as the matrix it is.  If the text
-/// separates the entries of a matrix part of plain numbers into rows at all (a line break, a bracket, a bar or a
+/// separates the entries of a matrix part (of plain numbers, or of scalar dual numbers) into rows at all (a line break, a bracket, a bar or a
 /// semicolon between two entries), then it must do so after every `cols` entries and nowhere else.  A flat list
 /// gives no verdict.  `shapes`: (ordinal of the first entry among the numbers of the text, rows, columns).
-pub fn shape_mismatch(text: &str, shapes: &[(usize, usize, usize)]) -> Option<String> {
+pub fn shape_mismatch(text: &str, shapes: &[(usize, usize, usize, usize)]) -> Option<String> {
     if shapes.is_empty() {
         return None;
     }
     let cs: Vec<char> = text.chars().collect();
     let (_, spans) = tokenize_spans(text);
-    for &(first, rows, cols) in shapes {
-        if first + rows * cols > spans.len() {
+    for &(first, rows, cols, k) in shapes {
+        if first + rows * cols * k > spans.len() {
             return None; // the number sequence itself is off: reported by compare()
         }
+        // entry e prints the numbers first + e*k .. first + (e+1)*k; the gap before entry e runs from the end of the
+        // previous entry's last number to the start of this entry's first number (the previous entry's trailing symbol
+        // is inside it; symbols contain none of the row-break characters)
         let mut breaks = vec![];
-        for k in 1..rows * cols {
-            let gap: String = cs[spans[first + k - 1].1..spans[first + k].0].iter().collect();
+        for e in 1..rows * cols {
+            let gap: String = cs[spans[first + e * k - 1].1..spans[first + e * k].0].iter().collect();
             if gap.contains(|c| matches!(c, '\n' | '[' | ']' | '│' | '|' | ';')) {
-                breaks.push(k);
+                breaks.push(e);
             }
         }
         let want: Vec<usize> = (1..rows).map(|r| r * cols).collect();
